@@ -1,4 +1,11 @@
-pub fn run(_args: &[String]) -> i32 {
-    eprintln!("crypto: not built yet");
-    2
+//! C05: header encryption over whole message sequences.
+//!
+//! The executor is shared with C02 (`frames.rs`): one direction of a connection is a `DirState`
+//! holding the plain stream, the encrypted stream written in parallel with the real wow_srp halves
+//! (built through the public ProofSeed handshake and `split()`), and reference halves that are fed
+//! exactly the observed header bytes through the raw `encrypt` / `decrypt` API.  `vh crypto` takes
+//! the same sub-commands: `replay --keys hex,.. [--flavours ..]` (records of spec/Framing.tla in
+//! mode c05) and `drive` (random dialogues, events validated by spec/TraceFraming.tla).
+pub fn run(args: &[String]) -> i32 {
+    crate::frames::run(args)
 }
